@@ -386,6 +386,31 @@ def check(run):
             got, want = f'raises {e}', sorted(vals.items())
         run.check(got == want, 'D2', f'HashMap round trip[{ser} values]' if got != want else f'values[{ser}]', f'{ser} values: read back {str(got)[:100]}, stored {str(want)[:100]}', w_ser)
 
+    # values of zero width (`Hashmap n True` sets, unit values): the leaf holds nothing after its label, the value deserialiser still
+    # decides what the value is
+    for rd in ('parse', 'load_dict'):
+        it = Interp(prog)
+        keys_ = [0, 3, 5, 6]
+        try:
+            hm = it.construct(prog.cls('HashMap'), [K(3)], {'value_serializer': lam(prog, 'lambda src, dest: dest', 'boc.hashmap.hashmap')})
+            for k_ in keys_:
+                cm.call_method(it, hm, 'set', K(k_), K(True))
+            cell = cm.call_method(it, hm, 'serialize')
+            unit = lam(prog, 'lambda v: True')
+            if rd == 'parse':
+                res = it.invoke(prog.method('HashMap', 'parse'), [cm.call_method(it, cell, 'begin_parse'), K(3), K(None), unit], {})
+            else:
+                b_ = it.construct(prog.cls('Builder'), [], {})
+                cm.call_method(it, b_, 'store_dict', cell)
+                res = cm.call_method(it, cm.call_method(it, cm.call_method(it, b_, 'end_cell'), 'begin_parse'), 'load_dict', K(3), K(None), unit)
+            got = [(k.v, v.v if isinstance(v, K) else repr(v)) for k, v in zip(res.keyobj.values(), res.d.values())] if isinstance(res, DictV) else repr(res)
+        except RaiseEx as e:
+            got = f'raises {e}'
+        want = [(k_, True) for k_ in keys_]
+        run.check(got == want, 'D2', f'HashMap round trip[values of zero width, {rd}]' if got != want else f'values[zero width,{rd}]',
+                  f'unit values (nothing stored after the label), read with `lambda v: True` through {rd}: {str(got)[:100]}, stored {want}', w_ser)
+        run.evaluations += 1
+
     # ------------------------------------------------------------------ D5 histories and positions
     run.rule('D5', 'serialize() reflects the map as it is now (after any setter, after a change of value serialiser); a dictionary stored behind other references / other dictionaries is the one read back', 7)
     rd8 = 'lambda v: v.load_uint(8)'
